@@ -115,7 +115,10 @@ fn apply<'a>(module: &mut wirm::Module<'a>, steps: &[(Step, Vec<u8>)]) -> Result
                 let m = match mode {
                     0 => InstrumentationMode::Before,
                     1 => InstrumentationMode::After,
-                    _ => InstrumentationMode::Alternate,
+                    2 => InstrumentationMode::Alternate,
+                    3 => InstrumentationMode::SemanticAfter,
+                    4 => InstrumentationMode::BlockEntry,
+                    _ => InstrumentationMode::BlockExit,
                 };
                 if via_iter {
                     let mut it = wirm::iterator::module_iterator::ModuleIterator::new(module, &vec![]);
@@ -230,6 +233,7 @@ impl Driver for SideEffects {
         let mut func_level: std::collections::BTreeSet<u32> = Default::default();
         let mut shifted = false;
         let mut merged_class = false;
+        let mut special_class = false;
         let mut log = vec![];
         for k in 0..n {
             let tag = tag_of(k);
@@ -367,15 +371,30 @@ impl Driver for SideEffects {
                     }
                     let fid = *c.t.pick(&cand);
                     let nops = w.f[fid as usize].nops;
-                    let mode = c.t.below(3) as u8;
+                    let mut mode = c.t.below(3) as u8;
                     // alternate/after are not honoured at the final end (C15); stay inside the body
-                    let at = c.t.range(2, nops - 2);
+                    let mut at = c.t.range(2, nops - 2);
+                    // one time in five a tagged special-mode probe on a block-like instruction
+                    if c.t.chance(1, 5) {
+                        let blockish: Vec<usize> = (2..nops.saturating_sub(1))
+                            .filter(|i| matches!(w.model.funcs[fid as usize].ops.get(*i).map(|o| dm::op_name(o)), Some("Block" | "Loop" | "If")))
+                            .collect();
+                        if !blockish.is_empty() {
+                            if c.avoid("tagged_special_instruction_probe") {
+                                c.steered("tagged_special_instruction_probe");
+                            } else {
+                                at = *c.t.pick(&blockish);
+                                mode = 3 + c.t.below(3) as u8;
+                                special_class = true;
+                            }
+                        }
+                    }
                     // a plain alternate replaces one instruction: not a structural one
                     let opk = w.model.funcs[fid as usize].ops.get(at).map(|o| dm::op_name(o).to_string()).unwrap_or_default();
                     if mode == 2 && matches!(opk.as_str(), "Block" | "Loop" | "If" | "Else" | "End" | "TryTable" | "Try" | "Catch" | "CatchAll") {
                         continue;
                     }
-                    if items.iter().any(|t| matches!(&t.item, Item::LocProbe { slot, instr, mode: m, .. } if *slot == fid && *instr == at && *m == ["before", "after", "alternate"][mode as usize])) {
+                    if items.iter().any(|t| matches!(&t.item, Item::LocProbe { slot, instr, mode: m, .. } if *slot == fid && *instr == at && *m == ["before", "after", "alternate", "semantic_after", "block_entry", "block_exit"][mode as usize])) {
                         continue; // one tag per (location, mode)
                     }
                     let ns = c.t.range(1, 2);
@@ -391,7 +410,7 @@ impl Driver for SideEffects {
                         ops.push(Operator::Nop);
                     }
                     let via_iter = c.t.bool();
-                    let mname = ["before", "after", "alternate"][mode as usize];
+                    let mname = ["before", "after", "alternate", "semantic_after", "block_entry", "block_exit"][mode as usize];
                     log.push(format!("[{}] probe {} func {} instr {} via_iter={} {:?}", k, mname, fid, at, via_iter, dbg_ops(&ops)));
                     items.push(Tagged { tag: tag.clone(), item: Item::LocProbe { slot: fid, instr: at, mode: mname, ops: dbg_ops(&ops) } });
                     steps.push((Step::LocProbe(fid, at, mode, ops, via_iter), tag));
@@ -588,6 +607,9 @@ impl Driver for SideEffects {
                         InstrumentationMode::Before => "before",
                         InstrumentationMode::After => "after",
                         InstrumentationMode::Alternate => "alternate",
+                        InstrumentationMode::SemanticAfter => "semantic_after",
+                        InstrumentationMode::BlockEntry => "block_entry",
+                        InstrumentationMode::BlockExit => "block_exit",
                         _ => "special",
                     };
                     if oids.fid(*target_fid) != mids.fid(*slot) {
@@ -619,6 +641,10 @@ impl Driver for SideEffects {
             }
         }
         if !fails.is_empty() {
+            if special_class {
+                let f = fails.swap_remove(0);
+                return fail("class:tagged_special_instruction_probe", format!("[{}] {}", f.sig, f.detail));
+            }
             if merged_class {
                 let f = fails.swap_remove(0);
                 return fail("class:func_probe_merges_into_before_probe", format!("[{}] {}", f.sig, f.detail));
